@@ -341,6 +341,71 @@ example : ∃ st : GState ℚ, st.param ≠ .cov ∧ CovTracksFactor st ∧ st.g
       have : i = j := by omega
       simp [sumTo, this]⟩, rfl, rfl⟩
 
+/-! ## every combination of specifications, including the mixed one -/
+
+/-- one side (noise or prior) is ready for the closed form: the `cov` getter holds `C`, the array the closed
+    form works with is the `d×d` matrix `CF`, and `W` is a left inverse of `CF` -/
+def SideReady (cov : Option (NArr K)) (d : ℕ) (W : ℕ → ℕ → K) : Prop :=
+  ∃ C CF, cov = some C ∧ diagIfVec (expandScalar C d) = .m d d CF ∧
+    ∀ i j, i < d → j < d → sumTo d (fun k => W i k * CF k j) = if i = j then 1 else 0
+
+/-- how a Gaussian may have been specified, with the precision `W` that specification denotes:
+    *either* by `prec`/`sqrtcov`/`sqrtprec` (any reachable state; `W` = precision of the stored factor, which
+    `gramDiag_documented`/`gramFull_documented` identify with the documented one), *or* by `cov` — the getter
+    holds a documented covariance argument `v` (scalar, size-1 array, variance vector, `d×d` matrix; raw or
+    already expanded by `compute_cov()`) and `W` is a left inverse of the covariance matrix it denotes. -/
+def SideSpec (st : GState K) (d : ℕ) (W : ℕ → ℕ → K) : Prop :=
+  (st.param ≠ .cov ∧ CovTracksFactor st ∧ st.gram = .ok (d, W)) ∨
+  (∃ v M, st.cov = some v ∧ docCov d v = some M ∧
+    ∀ i j, i < d → j < d → sumTo d (fun k => W i k * M k j) = if i = j then 1 else 0)
+
+lemma sideReady_or_none (st : GState K) (d : ℕ) (W : ℕ → ℕ → K) (h : SideSpec st d W) :
+    st.cov = none ∨ SideReady st.cov d W := by
+  rcases h with ⟨hp, H, hg⟩ | ⟨v, M, hv, hdoc, hW⟩
+  · rcases H hp with hnone | ⟨d1, G1, C1, hg1, hc1, hcert⟩
+    · exact Or.inl hnone
+    · rw [hg] at hg1
+      cases hg1
+      obtain ⟨CF, hCF, hq⟩ := expand_full d C1
+      refine Or.inr ⟨_, CF, hc1, hCF, fun i j hi hj => ?_⟩
+      rw [← hcert i j hi hj]
+      exact sumTo_congr _ _ _ fun k hk => by rw [hq k j hk hj]
+  · obtain ⟨G', hG', hq⟩ := expandCov_documented v d M hdoc
+    refine Or.inr ⟨v, G', hv, hG', fun i j hi hj => ?_⟩
+    rw [← hW i j hi hj]
+    exact sumTo_congr _ _ _ fun k hk => by rw [hq k j]
+
+/-- **mapDirect_irrespective_of_specification** (all four combinations, in particular the *mixed* ones: a
+    `cov`-specified Gaussian on one side and a `prec`/`sqrtcov`/`sqrtprec`-specified one on the other).
+    Whenever the closed-form `MAP` returns, the point satisfies the normal equations
+    `(AᵀWeA + Wx)x = AᵀWe b + Wx x0` with `We`, `Wx` the precisions the two specifications denote. -/
+theorem mapDirect_irrespective_of_specification (slv : Solver K) (m n : ℕ) (Af : ℕ → ℕ → K)
+    (lik pri : GState K) (We Wx : ℕ → ℕ → K) (hl : SideSpec lik m We) (hp : SideSpec pri n Wx)
+    (x0 b : ℕ → K) (r : NArr K)
+    (h : mapDirect slv (.m m n Af) m n lik.cov pri.cov (.v n x0) (.v m b) = .ok r) :
+    ∃ x, r = .v n x ∧ ∀ j, j < n → normalResidual m n Af We Wx x0 b x j = 0 := by
+  rcases sideReady_or_none lik m We hl with hnone | ⟨C1, CeF, hc1, hCe, hWe⟩
+  · rw [hnone] at h; simp [mapDirect, getCov, bind, Except.bind] at h
+  rcases sideReady_or_none pri n Wx hp with hnone | ⟨C2, CxF, hc2, hCx, hWx⟩
+  · rw [hc1, hnone] at h; simp [mapDirect, getCov, bind, Except.bind] at h
+  rw [hc1, hc2] at h
+  exact mapDirect_normal_equations slv m n Af C1 C2 CeF CxF We Wx x0 b r hCe hCx hWe hWx h
+
+/-- the mixed case is inhabited: noise given by the covariance scalar `2` (→ `We = ½`), prior by `prec = 2`
+    with `compute_cov()` called (→ `_cov = ½`, `Wx = 2`) -/
+example : ∃ lik pri : GState ℚ, SideSpec lik 1 (fun _ _ => 1/2) ∧ SideSpec pri 1 (fun _ _ => 2) ∧
+    lik.param = .cov ∧ pri.param = .prec :=
+  ⟨⟨.cov, 1, 1, .s 2, some (.s 2), .ok (1, fun _ _ => 1/2)⟩,
+   ⟨.prec, 1, 1, .m 1 1 fun _ _ => 2, some (.m 1 1 fun _ _ => 1/2), .ok (1, fun _ _ => 2)⟩,
+   Or.inr ⟨.s 2, _, rfl, rfl, fun i j hi hj => by
+     have hi0 : i = 0 := by omega
+     have hj0 : j = 0 := by omega
+     subst hi0 hj0
+     simp [sumTo]⟩,
+   Or.inl ⟨by decide, fun _ => Or.inr ⟨1, _, _, rfl, rfl, fun i j hi hj => by
+     have : i = j := by omega
+     simp [sumTo, this]⟩, rfl⟩, rfl, rfl⟩
+
 end
 
 end CuqiVerif.C15
